@@ -65,6 +65,18 @@ PROPS = {
         partial="keys are drop-tracked integers looked up through a distinct borrowed type (Borrow<KQ> for TKey); heap-owning String keys looked up via &str are not exercised",
         assumptions=["std HashMap / hashbrown implement a finite map under every BuildHasher (checked only through the five hashers of the harness)"],
     ),
+    "C04": dict(
+        level_text="PARTIAL. Coq theorems: for every cache and every state satisfying the C01 invariant, put conserves the retained entries (retained after + pairs handed back = retained before + 1; ARC: <=, ghosts may be discarded), derived from C12's truthful PutResult; remove hands back exactly the retained entry; purge leaves nothing. The models carry no object identity, so 'each key and value object is released exactly once' is decided on the implementation: keys and values are drop-tracked objects, the global allocator of the harness counts live blocks, poisons and quarantines freed memory; after every call the number of live tracked objects must equal twice the model's retained-entry count with no double drop, and the final drop (after every history, i.e. after an arbitrary prefix) must release exactly the retained keys and values, return every heap block and leave the poison intact.",
+        props_files=["C04"],
+        theorems={"C04": ["C04_put_conserves", "C04_lru_put", "C04_slru_put", "C04_twoq_put", "C04_arc_put", "C04_wtiny_put",
+                          "C04_remove_and_purge"]},
+        slices=dict(quick=lru_slices(1500, 150, 2, 100000) + comp_slices(2500, 150, 1200),
+                    thorough=lru_slices(30000, 400, 3, 1000000) + comp_slices(40000, 400, 20000)),
+        corpus=ALL_CORPUS,
+        monitors=["mon_c04"],
+        partial="object-level release-exactly-once is carried by the correspondence run (drop ledger + allocator), not by a theorem; a double free invisible to the quarantining allocator is outside both",
+        assumptions=["the harness drops every value the API hands back before the ledger is read, so alive = retained"],
+    ),
     "C05": dict(
         level_text="Coq theorems: in the models every unwrap(), index and overflow-checked addition of the library is an explicit Panic value; for SegmentedCache, TwoQueueCache, AdaptiveCache and WTinyLFUCache every operation of every reachable state returns Ok (induction over histories with the C01 invariants), RawLRU's step is total by construction, TinyLFU's increment/estimate/contains/compare/reset/clear return Ok for every 64-bit hash on every estimator the constructor builds (both sketch variants), and the sketch/sample-size validation of the constructor is proved. The models are tied to /repo by differential execution under catch_unwind, std and no_std builds, overflow checks on.",
         props_files=["C05"],
